@@ -110,6 +110,11 @@ fn mface(f: &Face) -> MFace {
 const NARROW: &[char] = &['a', 'b', 'x', '#', '─', 'é', '1'];
 const WIDE: &[char] = &['世', '界', '🤩', 'ｗ'];
 
+/// Image identity by content (size and pixels), independent of the library's `PartialEq`
+fn same_image(a: &Image, b: &Image) -> bool {
+    a.size() == b.size() && a.iter().zip(b.iter()).all(|(x, y)| x == y)
+}
+
 // ---------------------------------------------------------------------------
 // the monitoring terminal
 
@@ -207,9 +212,11 @@ impl ModelTerm {
     }
 
     fn image_id(&mut self, img: &Image, pos: Option<Position>) -> ImgId {
-        if let Some(i) = self.pool.iter().position(|p| p == img) {
+        if let Some(i) = self.pool.iter().position(|p| same_image(p, img)) {
             return i as ImgId;
         }
+        // rasterised glyphs: the renderer hands out clones of its cached raster, and two glyph cells may
+        // rasterise to equal pixels, so these are told apart the way the renderer tells them apart
         if let Some((_, id)) = self.glyph_images.iter().find(|(g, _)| g == img) {
             return *id;
         }
@@ -691,7 +698,7 @@ fn snapshot_surface(
             let kind = match cell.kind() {
                 CellKind::Char(ch) => SKind::Char(*ch),
                 CellKind::Image(img) => {
-                    let id = world.pool.iter().position(|p| p == img).map(|i| i as ImgId).unwrap_or(999_999);
+                    let id = world.pool.iter().position(|p| same_image(p, img)).map(|i| i as ImgId).unwrap_or(999_999);
                     let cells = img.size_cells(ppc);
                     SKind::Img(id, cells.height, cells.width)
                 }
@@ -743,9 +750,17 @@ impl Prop for C01 {
         };
         let ppc = (rng.range(2, 4), rng.range(1, 3));
         let with_images = rng.chance(1, 2);
-        let images: Vec<(usize, usize)> = (0..if with_images { rng.range(1, 3) } else { 0 })
+        let mut images: Vec<(usize, usize)> = (0..if with_images { rng.range(1, 3) } else { 0 })
             .map(|_| (rng.range(1, ppc.0 * 3), rng.range(1, ppc.1 * 4)))
             .collect();
+        // images of equal size are built as crops of one sprite sheet (see `check`)
+        if images.len() >= 2 && rng.chance(1, 2) {
+            for i in 1..images.len() {
+                if rng.chance(2, 3) {
+                    images[i] = images[0];
+                }
+            }
+        }
         let glyphs: Vec<(usize, usize)> = (0..if with_images && rng.bool() { rng.range(1, 2) } else { 0 })
             .map(|_| (rng.range(1, 2), rng.range(1, 3)))
             .collect();
@@ -809,16 +824,32 @@ impl Prop for C01 {
 
     fn check(case: &Case, ctx: &mut Ctx) -> Result<(), Fail> {
         let (h, w) = (case.h, case.w);
-        let pool: Vec<Image> = case
-            .images
-            .iter()
-            .enumerate()
-            .map(|(i, (ph, pw))| {
-                Image::from(SurfaceOwned::new_with(Size::new(*ph, *pw), |p| {
+        // Images of a size that occurred before are same-sized crops of one sprite sheet (they share
+        // the backing buffer and differ only in the window); the others own their buffer.
+        let mut pool: Vec<Image> = Vec::new();
+        let mut sheets: HashMap<(usize, usize), Image> = HashMap::new();
+        for (i, (ph, pw)) in case.images.iter().enumerate() {
+            let same: Vec<usize> = (0..case.images.len()).filter(|j| case.images[*j] == (*ph, *pw)).collect();
+            if same.len() > 1 {
+                let sheet = sheets
+                    .entry((*ph, *pw))
+                    .or_insert_with(|| {
+                        Image::from(SurfaceOwned::new_with(Size::new(*ph * same.len(), *pw + 1), |p| {
+                            RGBA::new(200, (p.row * 16 + 8) as u8, (p.col * 16) as u8, 255)
+                        }))
+                    })
+                    .clone();
+                let k = same.iter().position(|j| *j == i).unwrap();
+                // every other one also starts one column in
+                let c0 = k % 2;
+                pool.push(sheet.crop(k * ph..(k + 1) * ph, c0..c0 + pw));
+                ctx.feat("images.same-sized-crops-of-one-sheet");
+            } else {
+                pool.push(Image::from(SurfaceOwned::new_with(Size::new(*ph, *pw), |p| {
                     RGBA::new((i * 40) as u8, (p.row * 16) as u8, (p.col * 16) as u8, 255)
-                }))
-            })
-            .collect();
+                })));
+            }
+        }
         let glyphs: Vec<Glyph> = case
             .glyphs
             .iter()
